@@ -773,6 +773,13 @@ class Node:
                 f"Cannot move {self} below itself or one of its descendants"
             )
 
+        if new_parent is not self._parent:
+            for n in new_parent.children:
+                if n._data_id == self._data_id:
+                    raise UniqueConstraintError(
+                        f"Node.data already exists in parent: {n}"
+                    )
+
         pc = self._parent._children
         pc.pop(_index_of(pc, self))  # type: ignore
         if not self._parent._children:  # store None instead of `[]`
